@@ -712,7 +712,11 @@ func (a *Activation) frozenCheck(st *State, prefix, ref string, pos token.Pos) {
 	}
 	a.arith["frozen"]++
 	name := fmt.Sprintf("%s#frozen[%s:%d]", fullName(a.fn), shortName(prefix), a.arith["frozen"])
-	o := t.oblige("frozen", name, "C14.frozen", st.pc, tFalse, posStr(t.eng.fset, pos), "store to frozen field "+prefix+" of a published object")
+	// allowed only on objects allocated by the function under verification itself (still under construction)
+	t.regArray("$now", "Int")
+	age := t.declareFun("$age", []string{"Int"}, "Int")
+	now0 := t.lookup(a.rootAct().entry, "$now")
+	o := t.oblige("frozen", name, "C14.frozen", st.pc, "(>= "+sApp(age, ref)+" "+now0+")", posStr(t.eng.fset, pos), "store to frozen field "+prefix+" of an object that already existed on entry")
 	o.Fn = fullName(a.fn)
 }
 
